@@ -24,6 +24,7 @@ import (
 	"strings"
 	"time"
 
+	"github.com/osrg/gobgp/v4/internal/verif/seeds"
 	"github.com/osrg/gobgp/v4/internal/verif/sx"
 	"github.com/osrg/gobgp/v4/pkg/packet/bgp"
 )
@@ -333,6 +334,54 @@ func run(line string) (out string) {
 	case "fuzz":
 		b, _ := hex.DecodeString(f[3])
 		return fuzz(f[1] == "1", f[2] == "1", b)
+	case "rich":
+		// constructor-built attributes of every family and kind the harnesses know (the package's test UPDATE plus
+		// internal/verif/seeds): Len() before serialising equals the octets emitted, the octets parse back, and the
+		// parsed value re-serialises to the same octets, alone and inside an UPDATE
+		var fails []string
+		n := 0
+		all := append([]bgp.PathAttributeInterface{}, bgp.NewTestBGPUpdateMessage().Body.(*bgp.BGPUpdate).PathAttributes...)
+		all = append(all, seeds.Extra()...)
+		for _, a := range all {
+			n++
+			l0 := a.Len()
+			b, err := a.Serialize()
+			if err != nil {
+				fails = append(fails, fmt.Sprintf("(serialize-error %d)", a.GetType()))
+				continue
+			}
+			if l0 != len(b) || a.Len() != len(b) {
+				fails = append(fails, fmt.Sprintf("(len-differs %d len=%d/%d octets=%d %s)", a.GetType(), l0, a.Len(), len(b), hex.EncodeToString(b)))
+			}
+			a2, err := bgp.GetPathAttribute(b)
+			if err == nil {
+				err = a2.DecodeFromBytes(b, opts(false, false, true))
+			}
+			if err != nil {
+				fails = append(fails, fmt.Sprintf("(own-output-rejected %d %s %s)", a.GetType(), hex.EncodeToString(b), strings.ReplaceAll(strings.ReplaceAll(err.Error(), " ", "_"), "\n", "_")))
+				continue
+			}
+			if b2, err := a2.Serialize(); err != nil || !bytes.Equal(b, b2) {
+				fails = append(fails, fmt.Sprintf("(not-a-fixpoint %d %s %s)", a.GetType(), hex.EncodeToString(b), hex.EncodeToString(b2)))
+			}
+			m := bgp.NewBGPUpdateMessage(nil, []bgp.PathAttributeInterface{a}, nil)
+			mb, err := m.Serialize(opts(false, false, true))
+			if err != nil {
+				continue
+			}
+			m2, err := bgp.ParseBGPMessage(mb, opts(false, false, true))
+			if err != nil || m2 == nil {
+				fails = append(fails, fmt.Sprintf("(own-message-rejected %d %s)", a.GetType(), hex.EncodeToString(mb)))
+				continue
+			}
+			if mb2, err := m2.Serialize(opts(false, false, true)); err != nil || !bytes.Equal(mb, mb2) {
+				fails = append(fails, fmt.Sprintf("(message-not-a-fixpoint %d %s)", a.GetType(), hex.EncodeToString(mb)))
+			}
+		}
+		if len(fails) > 0 {
+			return "fail " + strings.Join(fails, " ")
+		}
+		return fmt.Sprintf("ok %d", n)
 	case "seeds":
 		// the package's own rich test messages: OPEN with every capability, UPDATE with every attribute type and
 		// MP_REACH/MP_UNREACH for many families
